@@ -435,6 +435,51 @@ void text_ints(char const *tn)
   }
 }
 
+// The same round trip while the program's GLOBAL locale groups digits ("1,000"): writer and reader both take their locale from
+// the same place, so whatever the writer produces the reader must take back. (Custom numpunct facets: no system locale needed.)
+template <class Ch>
+struct grouping_punct : std::numpunct<Ch>
+{
+  Ch do_thousands_sep() const override { return Ch(','); }
+  std::string do_grouping() const override { return "\3"; }
+};
+template <class T>
+void text_grouping_locale(char const *tn)
+{
+  std::string e = std::string("text-under-grouping-global-locale<") + tn + ">";
+  if (!vf::entry_enabled(e) || !vf::mine(vf::hash_str(e)))
+    return;
+  vf::set_entry(e);
+  if (!vf::begin_case("lattice and 2000 seeded values"))
+    return;
+  vf::note_distinct(vf::hash_str(e));
+  std::vector<T> vals = int_lattice<T>();
+  vf::rng g(vf::seed_for(e));
+  for (int i = 0; i < 2000; ++i)
+    vals.push_back(static_cast<T>(g.next() >> g.below(sizeof(T) * 8)));
+  struct restore
+  {
+    std::locale old;
+    ~restore() { std::locale::global(old); }
+  } guard{std::locale::global(std::locale(std::locale(std::locale::classic(), new grouping_punct<char>), new grouping_punct<wchar_t>))};
+  for (T v : vals)
+  {
+    vf::add_evals(1);
+    std::string const s = fcppt::output_to_std_string(v);
+    std::wstring const w = fcppt::output_to_std_wstring(v);
+    if (s.find(',') != std::string::npos)
+      VF_COUNT("text/grouping-locale/written-with-separator");
+    else
+      VF_COUNT("text/grouping-locale/written-without-separator");
+    auto const r = fcppt::extract_from_string<T>(s);
+    auto const r2 = fcppt::extract_from_string<T>(w);
+    if (!r.has_value() || r.get_unsafe() != v)
+      vf::violation(e + "/roundtrip", "mismatch", "value " + std::to_string(v) + " was written as \"" + s + "\" and did not read back");
+    if (!r2.has_value() || r2.get_unsafe() != v)
+      vf::violation(e + "/wide-roundtrip", "mismatch", "value " + std::to_string(v));
+  }
+}
+
 // ------------------------------------------------------------------ enums
 template <class E>
 void enum_roundtrip(char const *en, std::vector<std::string> const &non_names)
@@ -822,7 +867,7 @@ void io_string_wrappers()
 
 void body()
 {
-  for (char const *b : {"io/write-read", "io/read-from-failed-stream", "text/roundtrips", "text/char-types", "text/malformed", "enum/roundtrips", "enum/non-names",
+  for (char const *b : {"io/write-read", "io/read-from-failed-stream", "text/grouping-locale/written-with-separator", "text/roundtrips", "text/char-types", "text/malformed", "enum/roundtrips", "enum/non-names",
                         "vector/roundtrips", "vector/malformed", "utf8/strings", "utf8/scalars-singly", "utf8/narrow-growth/x4",
                         "utf8/narrow-growth/x2-3", "utf8/narrow-growth/lt-x2", "utf8/incomplete-input", "utf8/invalid-input",
                         "utf8/env-locale-strings", "io-string/roundtrips"})
@@ -847,6 +892,12 @@ void body()
   text_ints<unsigned long>("ulong");
   text_ints<long long>("llong");
   text_ints<unsigned long long>("ullong");
+  text_grouping_locale<short>("short");
+  text_grouping_locale<unsigned short>("ushort");
+  text_grouping_locale<int>("int");
+  text_grouping_locale<unsigned>("unsigned");
+  text_grouping_locale<long>("long");
+  text_grouping_locale<unsigned long long>("ullong");
   enum_roundtrip<E1>("E1", {"", "onl", "onlyx", "Only"});
   enum_roundtrip<E5>("E5", {"", "alph", "alphax", "a", "ALPHA", "eps", "bet"});
   enum_roundtrip<E9>("E9", {"", "n", "n9", "n00", "8"});
